@@ -1,14 +1,15 @@
 #!/bin/bash
-# usage: mutant.sh <patch-file> <property>...   applies the patch to /repo, runs the baseline and the
-# quick checks, reverts. Prints one summary line per check.
-P=$1; shift
-cd /repo || exit 2
-if [ -n "$(git status --porcelain)" ]; then echo "repo dirty"; exit 2; fi
+# usage: mutant.sh <patch-file> <property>...   applies the patch to a scratch worktree of /repo's HEAD, runs the
+# baseline suite and the quick checks against that worktree (VX_REPO), removes it. /repo is never touched.
+P=$(readlink -f "$1"); shift
+W=/tmp/mutant-$$
+git -C /repo worktree add --detach -q $W HEAD || exit 2
+trap 'git -C /repo worktree remove --force $W 2>/dev/null; rm -rf /tmp/mutant-ev-$$' EXIT
+cd $W
 git apply --recount "$P" || { echo "patch does not apply: $P"; exit 2; }
-trap 'cd /repo && git checkout -- . && git clean -fdq' EXIT
-/verif/tools/baseline.sh | head -3
+/verif/tools/baseline.sh $W | head -3
 for c in "$@"; do
-  out=$(/verif/run.sh check $c --tier ${TIER:-quick} 2>&1); rc=$?
+  out=$(VX_REPO=$W VX_EVIDENCE_DIR=/tmp/mutant-ev-$$ /verif/run.sh check $c --tier ${TIER:-quick} 2>&1); rc=$?
   echo "== $c rc=$rc $(echo "$out" | grep -c '^VIOLATION') violation line(s)"
   echo "$out" | grep -E "^  key|infrastructure|KNOWN" | sort | uniq -c | head -8
 done
